@@ -185,9 +185,13 @@ def run(ctx):
                         cases.append(c)
                     ctx.count("call:rejections=%d" % min(rej, 4))
     # (c) late feature (last step of the call rejected) and components on very different scales
-    for name in (PAIRS_EXPLICIT[:3] if ctx.quick() else PAIRS_EXPLICIT):
-        cls = getattr(I, name)
+    rich = {"Richardson(RK4Solver,3)": de.integrators.generate_richardson_integrator(I.RK4Solver, 3),
+            "Richardson(MidpointSolver,4)": de.integrators.generate_richardson_integrator(I.MidpointSolver, 4)}
+    for name in (PAIRS_EXPLICIT[:3] if ctx.quick() else PAIRS_EXPLICIT) + list(rich):
+        cls = rich[name] if name in rich else getattr(I, name)
         for kind in ("late-feature", "multi-scale"):
+            if name in rich and kind == "late-feature":
+                continue
             for tol in ([1e-5, 1e-8] if ctx.quick() else [1e-4, 1e-6, 1e-8, 1e-10]):
                 for direction in (1, -1):
                     f, exact, y0, t0, tf, L, par = late_feature(rng, direction, wide=name in ("RK108Solver", "RK1412Solver")) if kind == "late-feature" else multi_scale(rng, direction)
@@ -195,7 +199,8 @@ def run(ctx):
                     dt0 = rng.choice([1e-2, 0.3]) if kind == "late-feature" else rng.choice([1e-4, 1e-2, 5.0])
                     log = []
                     ode = de.OdeSystem(f, y0=y0.copy(), t=(t0, tf), dt=dt0, rtol=tol, atol=atol)
-                    ode.set_method(make_logged(cls, log))
+                    # (the Richardson wrappers have their own __call__: they run unrecorded, only the error is judged)
+                    ode.set_method(cls if name in rich else make_logged(cls, log))
                     inp = dict(kind=kind, method=name, tol=tol, atol=atol, t0=t0, tf=tf, dt0=dt0, y0=[float(v) for v in y0], **par)
                     nb = [0]
                     try:
@@ -216,8 +221,9 @@ def run(ctx):
                     # the recorded times are the sums of the steps the integrator actually took
                     # (to rounding: storing the target itself for a step that reaches it would be equally right)
                     same = len(okc) == len(ts) - 1 and all(abs(ts[i + 1] - (ts[i] + okc[i]["result"][2])) <= 4e-16 * max(abs(ts[i]), abs(ts[i + 1]), abs(tf)) for i in range(len(okc)))
-                    ctx.oracle("recorded-time-is-sum-of-taken-steps", same, dict(inp, steps=len(ts) - 1, calls=len(okc)),
-                               what="a recorded time differs from previous time + the step the integrator reported")
+                    if name not in rich:
+                        ctx.oracle("recorded-time-is-sum-of-taken-steps", same, dict(inp, steps=len(ts) - 1, calls=len(okc)),
+                                   what="a recorded time differs from previous time + the step the integrator reported")
                     ctx.oracle("run-reaches-target", abs(ts[-1] - tf) <= 8 * float(np.spacing(max(abs(tf), abs(t0)))), dict(inp, t_end=ts[-1]), what="run ended at %r, target %r" % (ts[-1], tf))
                     ex = np.array([exact(t) for t in ts]).reshape(ode.y.shape)
                     # |y_i| is the size of the component over the run (an oscillating component passes through zero)
